@@ -44,6 +44,12 @@ ASSUMPTIONS = [
 
 log = logging.getLogger("stepup.core.rpc")
 
+# The two replayed witnesses of C16_unpicklable_result_disturbs_siblings_refuted (findings.d/C16-*.json) are latent
+# defects that the coordinator has so far accepted as documented design: they are recorded as notes. Set to True
+# (together with KNOWN_FINDINGS entries for the two signatures) to have them reported as failures:
+#   oracle:unpicklable-result-cancels-siblings, oracle:unrenderable-exception-cancels-siblings
+REPORT_LATENT_TEARDOWN = False
+
 
 def generate(ctx):
     from translator import gen_rpc
@@ -462,8 +468,9 @@ async def _oracle_director_names(ctx):
     from stepup.core.rpc import is_rpc_allowed
     from .c16_driver import ServerRun, request, settle, split_messages
     problems = []
-    allowed = set(ctx.facts["allowed"]) if hasattr(ctx, "facts") else set()
     real_allowed = {n for n in dir(DirectorHandler) if is_rpc_allowed(getattr(DirectorHandler, n, None))}
+    # no generated list when the translator failed closed: nothing to compare (the refusals below still run)
+    allowed = set(ctx.facts["allowed"]) if hasattr(ctx, "facts") else real_allowed
     if allowed != real_allowed:
         problems.append(("allow-list", f"generated @allow_rpc list differs from the marked attributes: "
                                        f"{sorted(allowed ^ real_allowed)}"))
@@ -494,6 +501,17 @@ async def _oracle_director_names(ctx):
     return problems
 
 
+async def _oracle_badstr_witness(ctx):
+    """A handler exception that cannot be rendered (str(exc) raises): RemoteFailure.from_exception raises inside
+    _call_and_capture_failure, the send loop tears the connection down and the sibling calls are cancelled.
+    Same model behaviour as the unpicklable result (the completed task cannot be turned into a reply)."""
+    from .c16_driver import request, run_server_events
+    stream = request(1, "work", 1) + request(2, "work", 2) + request(3, "work", 3)
+    obs, ended = await run_server_events([["recv", stream], ["complete", 2, "badstr"], ["sent"]])
+    o = obs[-1]
+    return (o["sent"] == [(2, "sentinel")] and o["cancelled"] == [1, 3] and o["status"].startswith("failed")), o
+
+
 async def _oracle_refuted_witness(ctx):
     """Replay of C16_unpicklable_result_disturbs_siblings_refuted on the real connection."""
     from .c16_driver import request, run_server_events
@@ -511,9 +529,29 @@ def oracle(ctx):
             problems = run(_oracle_socket(ctx, tmp), timeout=600)
         problems += run(_oracle_director_names(ctx), timeout=300)
         same, o = run(_oracle_refuted_witness(ctx), timeout=120)
+        from . import c16_impl
+        with tempfile.TemporaryDirectory(prefix="verif-c16-") as tmp:
+            impl = c16_impl.run_all(ctx, tmp)
+        same2, o2 = run(_oracle_badstr_witness(ctx), timeout=120)
+    _report_impl(ctx, impl)
+    ctx.notes.append("second witness of the same refuted clause (a handler exception whose str() raises makes "
+                     "_call_and_capture_failure raise; sentinel to the caller, siblings cancelled): "
+                     + ("reproduced" if same2 else f"NOT reproduced (the code was repaired?): {o2['sent']} {o2['status']}"))
+    if same2 and REPORT_LATENT_TEARDOWN:
+        ctx.add_failure("oracle", "exception-without-str", "oracle:unrenderable-exception-cancels-siblings",
+                        "a handler raised an exception whose str() raises: RemoteFailure.from_exception raised inside "
+                        "_call_and_capture_failure, the caller got the sentinel, the connection was torn down and the "
+                        f"sibling calls 1 and 3 were cancelled: {o2['sent']} {o2['status']} cancelled {o2['cancelled']}",
+                        witness={"events": [["recv", "request(1, work) + request(2, work) + request(3, work)"],
+                                            ["complete", 2, "badstr"], ["sent"]], "obs": repr(o2)})
     ctx.notes.append("witness of C16_unpicklable_result_disturbs_siblings_refuted replayed on RPCServerConnection: "
                      + ("reproduced (sentinel to the caller, sibling handlers cancelled, serve() raises)" if same
                         else f"NOT reproduced: {o}"))
+    if same and REPORT_LATENT_TEARDOWN:
+        ctx.add_failure("oracle", "unpicklable-result", "oracle:unpicklable-result-cancels-siblings",
+                        f"an unpicklable result tore the connection down and cancelled the sibling calls: {o}",
+                        witness={"events": [["recv", "request(1, work) + request(2, work) + request(3, work)"],
+                                            ["complete", 2, "unpicklable"], ["sent"]], "obs": repr(o)})
     if not same:
         ctx.add_failure("oracle", "refuted-witness", "oracle:refuted-witness-not-reproduced",
                         f"the model's witness for the unpicklable-result teardown does not replay: {o}", witness={"obs": repr(o)})
@@ -532,9 +570,26 @@ def oracle(ctx):
     ctx.sample({"oracle": "socket server with concurrent calls, refusals, faults, second client", "problems": len(problems)})
 
 
+def _report_impl(ctx, problems):
+    seen = set()
+    for kind, text, wit in problems:
+        if kind in seen:
+            continue
+        seen.add(kind)
+        ctx.add_failure("oracle", "impl:" + kind.split(":")[0], f"oracle:impl:{kind}", text, witness=wit)
+
+
 def search(ctx):
-    """An obligation broke and nothing above produced a witness: a deeper run of the reply-trace oracle."""
+    """An obligation broke and nothing above produced a witness: the implementation-only families at a larger scale,
+    then a deeper run of the reply-trace oracle."""
+    from . import c16_impl
     from .c16_driver import run
+    with _quiet():
+        with tempfile.TemporaryDirectory(prefix="verif-c16-") as tmp:
+            impl = c16_impl.run_all(ctx, tmp, deep=True)
+    _report_impl(ctx, impl)
+    if impl:
+        return
     with _quiet():
         cases = run(_server_batch(ctx, 3000, 10), timeout=900)
     for events, msgs, stream, obs, ended in cases:
